@@ -328,6 +328,56 @@ func centreRow(g *gen.G) geom.Geometry {
 	return geom.NewPolygon(rings).AsGeometry()
 }
 
+// multiSpan builds a rectangle whose envelope-centre row is cut into several inside spans by holes and/or
+// notches of varied widths that straddle that row (six or more boundary crossings on the row; the widest
+// gap is often an outside one).
+func multiSpan(g *gen.G) geom.Geometry {
+	r := g.R
+	W, H := 16, 2*r.Range(3, 5)
+	pt := func(ix, iy int) (float64, float64) { return g.Cfg.XY(ix, iy) }
+	ring := func(ps [][2]int) geom.LineString {
+		var fs []float64
+		for _, p := range ps {
+			x, y := pt(p[0], p[1])
+			fs = append(fs, x, y)
+		}
+		return geom.NewLineString(geom.NewSequence(fs, geom.DimXY))
+	}
+	// gaps along x: alternating inside/outside widths
+	x := 1
+	var gaps [][2]int
+	for x < W-1 {
+		w := []int{1, 1, 2, 3, 6, 9}[r.Intn(6)]
+		if x+w > W-1 {
+			break
+		}
+		gaps = append(gaps, [2]int{x, x + w})
+		x += w + r.Range(1, 3)
+		if len(gaps) == 4 {
+			break
+		}
+	}
+	if len(gaps) < 2 {
+		gaps = [][2]int{{2, 3}, {5, 14}}
+	}
+	shell := [][2]int{{0, 0}}
+	var holes []geom.LineString
+	for _, gp := range gaps {
+		if r.Chance(1, 3) { // a notch from the bottom side reaching above the centre row
+			shell = append(shell, [2]int{gp[0], 0}, [2]int{gp[0], H/2 + 1}, [2]int{gp[1], H/2 + 1}, [2]int{gp[1], 0})
+		} else { // a hole across the centre row
+			holes = append(holes, ring([][2]int{{gp[0], H/2 - 1}, {gp[1], H/2 - 1}, {gp[1], H/2 + 1}, {gp[0], H/2 + 1}, {gp[0], H/2 - 1}}))
+		}
+	}
+	shell = append(shell, [2]int{W, 0}, [2]int{W, H}, [2]int{0, H}, [2]int{0, 0})
+	rings := append([]geom.LineString{ring(shell)}, holes...)
+	p := geom.NewPolygon(rings)
+	if !exact.ValidGeom(p.AsGeometry()).OK {
+		return geom.NewPolygon(rings[:1]).AsGeometry()
+	}
+	return p.AsGeometry()
+}
+
 func runAll(c *run.Ctx) {
 	for i := 0; i < c.N(3000, 60000); i++ {
 		c.Case("centre-row", i, func(k *run.K) {
@@ -335,6 +385,21 @@ func runAll(c *run.Ctx) {
 			cfg.Side = 8
 			g := &gen.G{R: k.Rng, Cfg: cfg}
 			x := centreRow(g)
+			switch k.Rng.Intn(3) {
+			case 1:
+				x = geom.NewMultiPolygon([]geom.Polygon{x.MustAsPolygon()}).AsGeometry()
+			case 2:
+				x = geom.NewGeometryCollection([]geom.Geometry{x}).AsGeometry()
+			}
+			one(k, x, gen.DSmall)
+		})
+	}
+	for i := 0; i < c.N(2000, 40000); i++ {
+		c.Case("multi-span", i, func(k *run.K) {
+			cfg := gen.NewCfg(k.Rng, gen.DSmall)
+			cfg.Side = 16
+			g := &gen.G{R: k.Rng, Cfg: cfg}
+			x := multiSpan(g)
 			switch k.Rng.Intn(3) {
 			case 1:
 				x = geom.NewMultiPolygon([]geom.Polygon{x.MustAsPolygon()}).AsGeometry()
